@@ -144,13 +144,13 @@ fn decode<'a>(u: &mut Unstructured, ts: &'a [Target]) -> arbitrary::Result<(&'a 
 }
 
 fuzz_target!(init: init(), |data: &[u8]| {
-    let ts = targets();
-    let mut u = Unstructured::new(data);
-    let Ok((t, mutant)) = decode(&mut u, ts) else { return };
-    if mutant == t.store {
-        return;
-    }
     fz::guard(|| {
+        let ts = targets();
+        let mut u = Unstructured::new(data);
+        let Ok((t, mutant)) = decode(&mut u, ts) else { return };
+        if mutant == t.store {
+            return;
+        }
         let Ok(r) = read(t.mime, &t.asset, &mutant) else {
             fz::count("mutant:read-error");
             return;
